@@ -10,7 +10,7 @@ pub const DICT: &[&[u8]] = &[
     b"<", b">", b"/>", b"</", b"<![CDATA[", b"]]>", b"<!--", b"-->", b"<?", b"?>", b"<!DOCTYPE", b"<!", b"&", b"&amp;", b"&#", b";", b"\"", b"'", b"=",
     b"\xff", b"\xc3", b"\xc3\x28", b"\x00", b"\xef\xbb\xbf", b" ", b"\n", b"<a>", b"</a>", b"<a/>", b"<a b='1'>", b"<a b=\"1\" b=\"2\">", b"<a b>",
     b"<a b=c>", b"<\xff>", b"<a \xff='1'>", b"xmlns:", b":", b"<:a>", b"<a:>", b"<a::b>", b"[", b"]", b"--", b"<a b='<'>", b"<a/ >", b"<a / >", b"< a>",
-    b"</ a>", b"<a\t>", b"\xe2\x82", b"<?xml version=\"1.0\"?>", b"<?xml version=\"1.0\" encoding=\"ISO-8859-1\"?>", b"<?xml version='1.0' encoding='UTF-16'?>", b"<!DOCTYPE a [<!ENTITY x \"y\">]>", b"<![CDATA[\xff]]>", b"\xf0\x9f\x92\xa9",
+    b"</ a>", b"<a\t>", b"\xe2\x82", b" \xc2\xa0", b"\xc2\x85", b"\xe2\x80\x83", b"\xe3\x80\x80", b"<a \xc2\xa0/>", b"<b\t\xc2\x85/>", b"<a \xe3\x80\x80b=\"1\"/>", b"<?xml version=\"1.0\"?>", b"<?xml version=\"1.0\" encoding=\"ISO-8859-1\"?>", b"<?xml version='1.0' encoding='UTF-16'?>", b"<!DOCTYPE a [<!ENTITY x \"y\">]>", b"<![CDATA[\xff]]>", b"\xf0\x9f\x92\xa9",
     b"<!DOCTYPE a [<!ENTITY x \"\xff\">]>", b"<!--\xff\xfe-->", b"<?p \xff?>", b"<!DOCTYPE a [<!ENTITY copyright \"(c) 2024 Soci\xc3\xa9t\xc3\xa9 G\xc3\xa9n\xc3\xa9rale \xc3\xa9\xc3\xa9\xc3\xa9\xc3\xa9\xc3\xa9\xc3\xa9\">]>", b"<!DOCTYPE a SYSTEM \"\xe9.dtd\">",
     b"<a b='1' c=\"2\" b='3'/>", b"<a 1='x'/>", b"<a b='x\xffy'/>", b"</>", b"<>", b"<a><b></a></b>",
 ];
